@@ -38,6 +38,9 @@ type WStep struct {
 	Data     Payload `json:"data,omitempty"`
 	Parts    []WPart `json:"parts,omitempty"`
 	Implicit bool    `json:"implicit,omitempty"` // writer left open; closed by the next NextWriter
+	// After: what the application does with the writer after Close (legal but
+	// pointless calls that must fail and write nothing): "" | close | write | both
+	After string `json:"after,omitempty"`
 	On       bool    `json:"on,omitempty"`
 	Level    int     `json:"level,omitempty"`
 	JSON     string  `json:"json,omitempty"`
@@ -396,6 +399,12 @@ func (x *wexec) writer(si int, s WStep, bad bool) {
 	}
 	x.call(si, len(s.Parts)+2, "Close", bad, m, func() error { return w.Close() })
 	x.endSent(m)
+	if s.After == "write" || s.After == "both" {
+		x.call(si, len(s.Parts)+3, "WriteAfterClose", true, -1, func() error { _, e := w.Write([]byte("late")); return e })
+	}
+	if s.After == "close" || s.After == "both" {
+		x.call(si, len(s.Parts)+4, "CloseAfterClose", true, -1, func() error { return w.Close() })
+	}
 }
 
 func (x *wexec) writePart(si, pi int, p WPart, w io.WriteCloser, chunk []byte, bad bool, m int) {
@@ -664,6 +673,9 @@ func genWStep(t *rapid.T, w int, o WGenOpts) WStep {
 		d := genPayload(t, "p", w, o.AllowHuge)
 		s = WStep{Op: "writer", MT: rapid.SampledFrom(dataTypes).Draw(t, "mt"), Data: d, Parts: genParts(t, d.Len, w, o.AllowCtl, partAPIs)}
 		s.Implicit = rapid.IntRange(0, 3).Draw(t, "implicit") == 0
+		if !s.Implicit && o.AllowBad && rapid.IntRange(0, 9).Draw(t, "after_close") == 0 {
+			s.After = rapid.SampledFrom([]string{"close", "write", "both"}).Draw(t, "after")
+		}
 	case k < 70:
 		js, _ := json.Marshal(genJSONValue(t, 2))
 		s = WStep{Op: "json", JSON: string(js)}
